@@ -7,7 +7,7 @@ cd /repo || exit 2
 if [ -n "$(git status --porcelain --untracked-files=no)" ]; then echo "/repo not clean"; exit 2; fi
 git apply /verif/seeded/$N/patch.diff || { echo "$N: patch does not apply"; exit 2; }
 for id in "$@"; do
-  rm -rf /tmp/seedtest_out; mkdir -p /tmp/seedtest_out; cp -r /verif/known_findings.json /tmp/seedtest_out/; [ -d /verif/regress ] && [ -z "$NO_REGRESS" ] && cp -r /verif/regress /tmp/seedtest_out/; out=$(cd /verif && RXV_OUT_DIR=/tmp/seedtest_out ./check $id quick 2>&1); rc=$?
+  rm -rf /tmp/seedtest_out; mkdir -p /tmp/seedtest_out; out=$(cd /verif && RXV_NO_REGRESS=$NO_REGRESS RXV_OUT_DIR=/tmp/seedtest_out ./check $id quick 2>&1); rc=$?
   sig=$(echo "$out" | grep -E "signature=" | head -1 | sed 's/detail=.*//')
   echo "$N vs $id: exit=$rc $sig"
   # keep the shrunk failing case as a regression tape (passes on the unchanged tree, fails with this change)
